@@ -187,10 +187,12 @@ def gen_run_case(rng, tier):
         linear = rng.random() < 0.7
         mdl = gen_model(rng, edges_delayed=False, linear=linear)
         vectorize = rng.random() < 0.5
-        if vectorize:
-            mdl["circuit"]["edges"] = []     # vectorized (undelayed) edge compilation is C04's subject and has known loud failures there
         flat = M.flatten(mdl)
         sp = M.state_paths(flat)
+        if vectorize:
+            # edges that leave algebraic variables are inside C04's known region for merged groups (stale value): vectorized cases keep edges from state variables only
+            mdl["circuit"]["edges"] = [e for e in mdl["circuit"]["edges"] if e["src"] in sp]
+            flat = M.flatten(mdl)
         if len(set(sp)) != len(sp):
             continue
         solver = rng.choice(["euler", "euler", "heun"])
@@ -501,11 +503,6 @@ def check(tier, seed, replay=None):
         rep.count(("R-" + case["solver"] + ("-userhist" if case.get("pre") else "")) if case["kind"] == "run" else ("F-func" + ("-kwarg" if case["via_kwarg"] else "")),
                   json.dumps(case, sort_keys=True), nontrivial=(len(reads) >= 2 and offgrid))
         if "error" in im:
-            if case["kind"] == "func" and case.get("vectorize"):
-                # vectorized delayed edges are refused by PyRates for several edge patterns (loud: ValueError/IndexError at compile or call time); not a silent
-                # deviation, counted separately
-                rep.cov["streams"]["vectorized_func_cases_refused_loudly"] = rep.cov["streams"].get("vectorized_func_cases_refused_loudly", 0) + 1
-                continue
             bad.append((case, [("raises", im)]))
             continue
         dev = []
